@@ -743,10 +743,14 @@ theorem config_shared_state_spec :
 
 private theorem quicReset_true : quicReset = true := quic_addresses_reset_spec
 
+/-- `create_sockets()` records the QUIC addresses of the call it is whether or not TLS is on (F117: before /repo c5ea7af the
+    call sat in the TLS branch only and the addresses of an earlier call under TLS stayed) - re-decided against the source -/
+theorem quic_set_always_spec : HC.Extracted.Guards.configQuicSetAlways = true := by decide
+
 private theorem step_shared (w : World) (op : Op) : (step w op).shared = w.shared := by
   unfold step
   rw [quicReset_true]
-  cases op <;> simp only [stepWith, setQuic, if_true] <;> (try rfl) <;> split <;> (try split) <;> (try simp) <;> (try simp_all)
+  cases op <;> simp only [stepWith, setQuic, quic_set_always_spec, if_true] <;> (try rfl) <;> split <;> (try split) <;> (try simp) <;> (try simp_all)
 
 private theorem step_obj (w : World) (op : Op) (i : Nat) (o : Obj) (h : w.objs[i]? = some o) :
     (step w op).objs[i]? = some (if op.target = some i then objStep o op else o) := by
@@ -764,7 +768,7 @@ private theorem step_obj (w : World) (op : Op) (i : Nat) (o : Obj) (h : w.objs[i
     | none => by_cases e : j = i <;> simp_all
     | some oj => by_cases e : j = i <;> simp_all
   | createSockets j q =>
-    simp only [stepWith, Op.target, objStep, setQuic]
+    simp only [stepWith, Op.target, objStep, setQuic, quic_set_always_spec, if_true]
     cases hj : w.objs[j]? with
     | none => by_cases e : j = i <;> simp_all
     | some oj => by_cases e : j = i <;> cases hs : oj.ssl <;> simp_all
